@@ -54,6 +54,20 @@ let run_case (toks : string list) : string option =
     let (ops, r) = run_send BoNetwork cfg inj p in
     let o = if ops = [] then "-" else String.concat "," (List.map render_op ops) in
     Some (o ^ "|" ^ render_result r)
+  | ["c11seq"; priv; proto; src; dst; size; pattern; iseq; tos; probes] ->
+    let cfg = cfg_of (priv = "1") proto src dst size pattern iseq tos in
+    let ps = List.map (fun x -> match String.split_on_char '.' x with
+        | [seq; id; sp; dp; ttl; flags] ->
+          { p_sequence = zi seq; p_identifier = zi id; p_src_port = zi sp; p_dest_port = zi dp;
+            p_ttl = zi ttl; p_round = Z0; p_sent = Z0; p_flags = zi flags }
+        | _ -> failwith "probe") (split_on ',' probes) in
+    let (w, r) = connect BoNetwork cfg { w_ops = []; w_inject = [] } in
+    let (ops, sent, res) = (match r with
+        | Ok ch -> let (w', (sent, res)) = send_many ch ps w Z0 in (w'.w_ops, sent, res)
+        | Err e -> (w.w_ops, Z0, Err e)
+        | Fault f -> (w.w_ops, Z0, Fault f)) in
+    let o = if ops = [] then "-" else String.concat "," (List.map render_op ops) in
+    Some (Printf.sprintf "%s|sent=%s|%s" o (zs sent) (render_result res))
   | ["c11fill"; src; dst; n] ->
     let n = int_of_string n in
     let cfg = cfg_of true "tcp" src dst "84" "0" "33434" "0" in
